@@ -215,7 +215,7 @@ class Cond:
 
     def negate(self):
         c = Cond(self.op, self.a, self.b, not self.neg, self.text)
-        for k in ("subject", "pts"):
+        for k in ("subject", "pts", "parts"):
             if hasattr(self, k):
                 setattr(c, k, getattr(self, k))
         return c
